@@ -1,12 +1,16 @@
 import Infretis.Lemmas.RepexCtr
 import Infretis.Props.C17Runner
+import Infretis.Props.C17Sys
+import Infretis.Props.C17Sched
 /-!
 # C17 — exactly the requested number of moves runs; each result is consumed once
 
 Scheduler half (this file): step arithmetic of `scheduler()` over the replica-exchange state
 machine `Infretis.Repex` (model: `Model/Repex.lean`, mirrors scheduler.py + REPEX_state.initiate /
 loop incl. the repair 2596063 "initiate() does not start more jobs than there are steps left").
-Runner half: `Props/C17Runner.lean` (model `Model/Runner.lean`), re-exported at the end.
+Runner half: `Props/C17Runner.lean` (model `Model/Runner.lean`, the abstract protocol) and
+`Props/C17Sys.lean` (model `Model/RunnerSys.lean`, the runner's own code as a transition system, proved
+to refine the protocol), audited together with this file.
 
 A scheduler history is `starts ++ [.initDone] ++ steps` (the two `while` loops of `scheduler()`);
 all random / MD outcomes and the completion order are arbitrary (they are arguments of the events).
@@ -362,6 +366,25 @@ theorem inflight_bounds {y0 y : Sys} {evs : List Ev} (hf : Fresh y0) (hsh : Shap
   rw [he] at h5
   simp at h5
   omega
+
+/-- **One life, any restart point** (also the no-op restart `cstep₀ > steps`).  When the main loop
+    has ended after a scheduler history from a fresh state: the step counter is `max cstep₀ steps`,
+    exactly `max cstep₀ steps − cstep₀` moves were completed, and with `cstep₀ ≤ steps` no job is in
+    flight.  This is what `SchedCtr.life` takes as the effect of a finished `scheduler()` run. -/
+theorem life_counters {y0 y : Sys} {evs : List Ev} (hf : Fresh y0) (hsh : Shaped evs)
+    (hr : run y0 evs = .ok y) (hfin : (loop y.s).2 = false) :
+    y.s.cstep = max y0.s.cstep y0.s.tsteps ∧ nSteps evs = max y0.s.cstep y0.s.tsteps - y0.s.cstep ∧
+    (persist y.s).cstep = y0.s.cstep + nSteps evs ∧ (y0.s.cstep ≤ y0.s.tsteps → y.jobs = []) := by
+  obtain ⟨h1, h2, h3, h4, h5⟩ := scheduler_arithmetic hf hsh hr
+  have hl := ((loop_fields y.s).2.2.2.2 hfin).1
+  refine ⟨by omega, by omega, h1, ?_⟩
+  intro hc0
+  exact (finished_run hf hsh hr hc0 hfin).2.2
+
+-- the no-op restart (cstep₀ = 5 > steps = 2): hypotheses of `life_counters` hold on a concrete history
+example : let y0 : Sys := { s := blank 3 1 2 5 3 0 [] [] true [], jobs := [] }
+    Fresh y0 ∧ Shaped [Ev.initDone] ∧ run y0 [Ev.initDone] = .ok y0 ∧ (loop y0.s).2 = false :=
+  ⟨⟨rfl, rfl⟩, ⟨[], [], rfl, by simp, by simp⟩, rfl, rfl⟩
 
 /-- the restart file's step counter is the number of completed moves -/
 theorem restart_cstep (s : St) : (persist s).cstep = s.cstep := rfl
